@@ -17,6 +17,7 @@ macro_rules! h {
         #[kani::unwind(5)]
         #[kani::stub(std::alloc::alloc, alloc_stub)]
         #[kani::stub(alloc::alloc::dealloc_nonnull, dealloc_stub)]
+        #[kani::stub(core::sync::atomic::atomic_compare_exchange_weak, cas_weak_stub)]
         fn $name() {
             crate::ghost::arm();
             $body;
